@@ -20,6 +20,8 @@ EXPLANATION = (
     "L (lines): resolv_conf_parse_line is evaluated on the directive forms of resolv.conf(5) (nameserver, domain, search with several domains, options with several settings, "
     "comments, unknown directives, missing arguments, leading white space) under every flags class: it performs exactly the documented actions (which nameserver is added, which "
     "domains in which order, which option/value pairs reach the option table) and nothing for malformed or unknown lines. "
+    "D (search domains): search_postfix_add is evaluated on domains with 0..3 leading dots placed at the very end of the caller's buffer: the stored postfix is the text without the dots, the "
+    "recorded length is its own, the copy reads nothing behind the terminator and stays inside the block it allocated. "
     "Declined: memory safety of the file reader on arbitrary bytes, the hosts file, evutil_parse_sockaddr_port (C40), equality with a reference parser on all inputs.")
 ASSUMPTIONS = ["strtol/strtod behave as in C (modelled)", "strtok_r splits at runs of the delimiter characters (modelled)"]
 
@@ -350,10 +352,63 @@ def rule_lines(P):
     return r
 
 
+def rule_search_add(P):
+    """search_postfix_add: the stored postfix is the domain without its leading dots, its recorded length is that text's, the copy reads only the caller's string and fits the block"""
+    from ..cmem import MEM0, mem_put, mem_str, mem_hook
+    r = Rule("C39-search-add", "K6", "search_postfix_add stores the domain without leading dots, with its own length, reading only the caller's string and writing only what it allocated", floor=8)
+    f = P.fn("search_postfix_add")
+    HDR = 16
+    sd = ["var", "sdomain", "local"]
+    for dom in (b"example.com", b".example.com", b"..example.com", b"...a", b"a", b".", b"", b"corp.example."):
+        env = {"#typed": 1, "#bytemem": 1, "event_debug_logging_mask_": 0, f.params[0][0]: PPtr("base"), ("@", "base", "#zero"): 1, ("@", "base", "evdns_base.global_search_state"): PPtr("ss"),
+               ("@", "ss", "#zero"): 1, ("@", "base", "evdns_base.lock"): 0, f.params[1][0]: MEM0}
+        mem_put(env, MEM0, dom)        # the string ends where the caller's buffer ends: the bytes behind the terminator hold no data
+
+        def extra(el, e_):
+            n = callee_name(el.e)
+            if n in ("evthread_is_debug_lock_held_",):
+                return 1
+            if n == "search_state_new":
+                return PPtr("ss")
+            return None
+        outs = [o for o in run_all(f, (f.entry, 0), env, lambda el: False, P, mem_hook(P, extra), max_steps=2000) if not (o.kind == "exit" and o.why == "noreturn")]
+        want = dom.lstrip(b".")
+        for o in outs:
+            if o.kind not in ("ret", "exit"):
+                r.brk("search_postfix_add(%r): %s %s %s" % (dom, o.kind, o.why, o.env.get("#err", "")))
+                return r
+            e_ = o.env
+            blocks = e_.get("#blocks", ())
+            ln = e_.get(nkey(["fld", sd, "search_domain.len", "->"]))
+            r.inst(dom, {"domain": dom.decode(), "blocks": [list(b) for b in blocks], "len_field": ln})
+            bad = None
+            if e_.get("#oob"):
+                bad = ("out-of-bounds", e_["#oob"])
+            elif len(blocks) != 1:
+                bad = ("allocation", "%d allocations" % len(blocks))
+            else:
+                addr, size = blocks[0]
+                hdr = size - len(want)
+                got = bytes(e_.get(("m", addr + hdr + k), 0x3f) for k in range(len(want))) if hdr >= 0 else None
+                if ln != len(want):
+                    bad = ("length", "records length %r for the postfix %r" % (ln, want))
+                elif hdr < 8 or got != want:
+                    bad = ("content", "block of %d bytes holds %r behind its header; the postfix is %r" % (size, got, want))
+            if bad:
+                r.bad("K6:search_postfix_add:%s" % bad[0], "%s:%d" % (f.file, f.line), f.name, "domain %r: %s" % (dom, bad[1]))
+    seen, uniq = set(), []
+    for f_ in r.findings:
+        if f_.key not in seen:
+            seen.add(f_.key)
+            uniq.append(f_)
+    r.findings = uniq
+    return r
+
+
 def run(ctx, config):
     P = ctx.prog(UNITS, config)
     rules = []
-    for mk in (rule_table, rule_options, rule_lines):
+    for mk in (rule_table, rule_options, rule_lines, rule_search_add):
         try:
             rules.append(mk(P))
         except AnalysisBroken as ex:
